@@ -1,7 +1,9 @@
 package rest
 
 import (
+	"errors"
 	"net/http"
+	"sync"
 	"time"
 
 	"github.com/gorilla/websocket"
@@ -33,11 +35,15 @@ var upgraderV1 = websocket.Upgrader{
 	WriteBufferSize: 1024,
 }
 
+var errListenerClosedV1 = errors.New("websocket listener closed")
+
 // msgListenerV1 handles messages from the msghub
 type msgListenerV1 struct {
 	hub     *msghub.Hub                // Global message hub
 	c       chan event.MessageMetadata // Queue of messages from Receive()
 	mailbox string                     // Name of mailbox to monitor, "" == all mailboxes
+	done    chan struct{}              // Closed by Close()
+	once    sync.Once
 }
 
 // newMsgListenerV1 creates a listener and registers it.  Optional mailbox parameter will restrict
@@ -47,6 +53,7 @@ func newMsgListenerV1(hub *msghub.Hub, mailbox string) *msgListenerV1 {
 		hub:     hub,
 		c:       make(chan event.MessageMetadata, 100),
 		mailbox: mailbox,
+		done:    make(chan struct{}),
 	}
 	hub.AddListener(ml)
 	return ml
@@ -58,8 +65,12 @@ func (ml *msgListenerV1) Receive(msg event.MessageMetadata) error {
 		// Did not match the watched mailbox name.
 		return nil
 	}
-	ml.c <- msg
-	return nil
+	select {
+	case ml.c <- msg:
+		return nil
+	case <-ml.done:
+		return errListenerClosedV1
+	}
 }
 
 // Delete handles a deleted message.
@@ -119,6 +130,10 @@ func (ml *msgListenerV1) WSWriter(conn *websocket.Conn) {
 	// Handle messages from hub until msgListener is closed
 	for {
 		select {
+		case <-ml.done:
+			// msgListener closed, exit
+			_ = conn.WriteMessage(websocket.CloseMessage, []byte{})
+			return
 		case msg, ok := <-ml.c:
 			if err := conn.SetWriteDeadline(time.Now().Add(writeWaitV1)); err != nil {
 				slog.Warn().Err(err).Msg("Failed to set write deadline for msg")
@@ -146,15 +161,13 @@ func (ml *msgListenerV1) WSWriter(conn *websocket.Conn) {
 	}
 }
 
-// Close removes the listener registration
+// Close removes the listener registration.  It may be called more than once (reader and
+// writer both do); the event queue itself is never closed, so the hub cannot hit a closed channel.
 func (ml *msgListenerV1) Close() {
-	select {
-	case <-ml.c:
-		// Already closed
-	default:
+	ml.once.Do(func() {
+		close(ml.done)
 		ml.hub.RemoveListener(ml)
-		close(ml.c)
-	}
+	})
 }
 
 // MonitorAllMessagesV1 is a web handler which upgrades the connection to a websocket and notifies
